@@ -96,6 +96,9 @@ def gen(rng, tier):
         yield Case("rnd", ["support"] + base + ["window", rng.randint(1, L), K], True, "support-window")
         yield Case("rnd", ["support"] + base + ["columns", rng.randint(1, L), K], True, "support-columns")
         yield Case("rnd", ["support"] + base + ["shuffle", "0", K], True, "support-shuffle")
+        if L >= 5:
+            for what in ("rogue", "shufflesites", "addgaps", "mutate"):
+                yield Case("rnd", ["support"] + base + [what, rng.choice(["1/2", "3/4", "1"]), K], True, "support-" + what)
 
 
 def shrink(c):
